@@ -552,9 +552,12 @@ func VH_C07_CLI() {
 			wantFatal = true // a single input
 		} else {
 			st := []int64{1, 3, 60, 80}[choose(4)] * sec // before, tie with the first cue, tie with the second, after
-			in1 := vfsPut("in1.srt", []byte("1\n"+vrenderTime(st/1000000, ",", 3)+" --> "+vrenderTime(st/1000000+2000, ",", 3)+"\nHello\n"))
+			// the second document is the longer one and has a cue starting with the first document's first cue: the
+			// first input's cues stay ahead on equal starts whatever the sizes
+			in1 := vfsPut("in1.srt", []byte("1\n"+vrenderTime(st/1000000, ",", 3)+" --> "+vrenderTime(st/1000000+2000, ",", 3)+"\nHello\n\n"+
+				"2\n00:00:03,000 --> 00:00:04,000\nBye\n\n3\n00:01:30,000 --> 00:01:31,000\nLate\n"))
 			inputs = append(inputs, in1)
-			ref = vc07RefOrder(append(ref, vc07Cue{st, st + 2*sec, "Hello"}))
+			ref = vc07RefOrder(append(ref, vc07Cue{st, st + 2*sec, "Hello"}, vc07Cue{3 * sec, 4 * sec, "Bye"}, vc07Cue{90 * sec, 91 * sec, "Late"}))
 		}
 	case "apply-linear-correction":
 		variant = choose(5)
